@@ -224,6 +224,57 @@ def strat_libseed(draw):
             'junk1': draw(st.integers(0, 100)), 'junk2': draw(st.integers(101, 200))}
 
 
+# ---------------------------------------------------------------------------
+# history independence inside one process: what ran before must not matter
+
+CONSTRUCTIONS = [['complete', '4'], ['complete', '5'], ['complete', '6'], ['grid', '2', '3'], ['grid', '3', '3'], ['torus', '3', '3'],
+                 ['empty', '5'], ['complete', '2', '3'], ['grid', '4']]
+SIMPLE_CMDS = [['kcolor', '3'], ['tiling'], ['matching'], ['tseitin', 'first'], ['kclique', '3'], ['domset', '2'], ['op'], ['iso'], ['ec']]
+MODS = [['addedges', '1'], ['addedges', '2'], ['splitedges', '1'], ['splitedges', '2'], ['plantclique', '3'], ['addedges', '1', 'splitedges', '2']]
+SHUFFLES = [['-T', 'shuffle'], ['-T', 'shuffle', '--no-variables-permutation'], ['-T', 'shuffle', '--no-variables-permutation', '--no-clauses-permutation'],
+            ['-T', 'shuffle', '--no-polarity-flips', '--no-variables-permutation', '--no-clauses-permutation'],
+            ['-T', 'shuffle', '--no-polarity-flips'], ['-T', 'flip'], ['-T', 'xor', '2'], ['-T', 'xorcomp', '3', '2']]
+
+
+def run_history(case):
+    tool = case['tool']
+    outs = []
+    for step in ('victim', 'polluter', 'victim'):
+        random.seed(case['junk'])
+        r = cli.run_main(tool, case[step], case.get('stdin'))
+        outs.append((r.code, r.out, type(r.exc).__name__ if r.exc is not None else r.err))
+    if outs[0] != outs[2]:
+        da, db = outs[0][1].splitlines(), outs[2][1].splitlines()
+        diff = next(((i, x, y) for i, (x, y) in enumerate(zip(da, db)) if x != y), (outs[0][0], outs[2][0], len(da), len(db)))
+        raise Violation("{} {}: the output changes after running `{} {}` in the same process; first difference: {}".format(
+            tool, ' '.join(case['victim']), tool, ' '.join(case['polluter']), diff))
+    return Outcome(labels=[tool, case['kind']], nontrivial=outs[0][0] == 0)
+
+
+@st.composite
+def strat_history(draw):
+    kind = draw(st.sampled_from(['construction', 'construction', 'numeric', 'shuffle']))
+    seed1, seed2 = str(draw(st.integers(0, 99))), str(draw(st.integers(0, 99)))
+    tool = draw(st.sampled_from(['cnfgen', 'cnfgen', 'pbgen']))
+    if kind == 'construction':
+        S = draw(st.sampled_from(CONSTRUCTIONS))
+        c1, c2 = draw(st.sampled_from(SIMPLE_CMDS)), draw(st.sampled_from(SIMPLE_CMDS))
+        victim = ['--seed', seed1] + c1 + S
+        polluter = ['--seed', seed2] + c2 + S + draw(st.sampled_from(MODS))
+    elif kind == 'numeric':
+        n = str(draw(st.integers(3, 6)))
+        victim = ['--seed', seed1] + draw(st.sampled_from([['op', n], ['php', n, '3'], ['count', n, '2'], ['ram', '3', '3', n], ['parity', n]]))
+        polluter = ['--seed', seed2] + draw(st.sampled_from([['op', 'complete', n] + draw(st.sampled_from(MODS)),
+                                                             ['kclique', '3', 'complete', n, 'splitedges', '2'],
+                                                             ['tiling', 'complete', n, 'addedges', '0', 'splitedges', '1']]))
+    else:
+        tool = 'cnfgen'
+        base = draw(st.sampled_from([['php', '4', '3'], ['op', '4'], ['tseitin', 'first', 'grid', '2', '3'], ['rphp', '2', '3', '2']]))
+        victim = ['--seed', seed1] + base + draw(st.sampled_from(SHUFFLES))
+        polluter = ['--seed', seed2] + base + draw(st.sampled_from(SHUFFLES))
+    return {'tool': tool, 'kind': kind, 'victim': victim, 'polluter': polluter, 'junk': draw(st.integers(0, 50))}
+
+
 def enum_libseed(tier):
     for fn in LIBFNS:
         if fn in ('RandomKCNF', 'RandomKXOR'):
@@ -243,6 +294,9 @@ SUBCHECKS = [
     SubCheck('xproc', run_xproc, strategy=strat_xproc, quick=32, thorough=1600,
              rule="batches of 1..30 of the same command lines, each batch executed in two fresh processes with different PYTHONHASHSEED (0/1/4242 vs random/17/99999) and different working directories; oracle: identical exit status and stdout bytes (header included); non-trivial: exit 0",
              required_labels=['cross-process', 'cross-cwd']),
+    SubCheck('history', run_history, strategy=strat_history, quick=500, thorough=20000,
+             rule="in one process: a command line V, then a command line P that shares a graph construction / family size / formula with V but adds graph modifiers or other transformation options, then V again; oracle: both runs of V print the same (exit status, stdout, stderr) - the output is a function of the command line and seed only, not of what ran before; non-trivial: exit 0",
+             required_labels=['construction', 'numeric', 'shuffle']),
     SubCheck('libseed', run_libseed, strategy=strat_libseed, enumerate_cases=enum_libseed, quick=300, thorough=20000,
              rule="every library generator with a seed argument called twice with the same seed (0, strings, big integers) from different states of the global generator; oracle: equal formulas / graphs",
              required_labels=LIBFNS + ['seed=0']),
